@@ -1108,6 +1108,9 @@ fn gen_round(rng: &mut Rng, trace: usize, net: &mut Net) -> Op {
         };
         probes.push((ttl, slot));
     }
+    // a round in which nothing answered: the tracer reports path length 0 unless it remembers the target's
+    // distance (`publish_trace`)
+    let largest = if mode == 0 && rng.chance(1, 2) { 0 } else { largest };
     Op::Round { trace, largest, probes }
 }
 
@@ -1308,6 +1311,19 @@ fn directed() -> Vec<(&'static str, Setup, Vec<Op>)> {
     };
     vec![
         // GeoIP database loaded: hops with an odd ttl have a city, the others "no data"; privacy hides ttl <= n
+        // a blackout: rounds with answers, then a round in which nothing answers (reported path length 0),
+        // drawn in every view with no hop selected (the views fall back to the target hop)
+        (
+            "silent-round-after-data",
+            simple_setup(1, 64),
+            vec![
+                path(0, &[c(0), c(0), c(0)]), path(0, &[c(0), c(0), c(0)]), f(),
+                Op::Round { trace: 0, largest: 0, probes: vec![(1, Slot::Awaited), (2, Slot::Awaited), (3, Slot::Awaited)] }, f(),
+                K("toggle_chart"), f(), K("toggle_chart"), K("toggle_map"), f(), K("toggle_map"), K("toggle_flows"), f(), K("toggle_flows"),
+                K("next_hop"), f(), K("toggle_hop_details"), f(),
+                path(0, &[c(0), c(0), c(0)]), f(),
+            ],
+        ),
         ("geoip-map-privacy-2", geo(Some(2), 1), walk(6)),
         ("geoip-map-privacy-3-long", geo(Some(3), 2), walk(6)),
         ("geoip-map-privacy-4-location", geo(Some(4), 3), walk(6)),
